@@ -780,6 +780,127 @@ mut("C23", "SILENT_helper_variable", MAIN, """    let mut all_cwes = Vec::new();
     let mut unsorted = Vec::new();
     for module in modules {""", [], "helper variable only (must NOT be reported)")
 
+# ---------------- C03
+DT = L + "abstract_domain/data/trait_impl.rs"
+DM = L + "abstract_domain/domain_map.rs"
+TM2 = L + "analysis/taint/mod.rs"
+mut("C03", "top_flag_and", DT, "contains_top_values: self.contains_top_values || other.contains_top_values,", "contains_top_values: self.contains_top_values && other.contains_top_values,", ["R2|DataDomain|contains_top_values"], "Top flag joined with &&")
+mut("C03", "taint_merge_with_reversed", TM2, "if let (Top(_), Tainted(_)) = (&self, other) {", "if let (Tainted(_), Top(_)) = (&self, other) {", ["R3|Taint::merge_with"], "in-place taint merge loses the taint")
+mut("C03", "mergetop_forgets_other_keys", DM, """        for (k, value_other) in other.iter() {
+            if map.get(k).is_none() {
+                let mut merged_value = value_other.top();
+
+                merged_value.merge_with(value_other);
+
+                if !merged_value.is_top() {
+                    map.insert(k.clone(), merged_value);
+                }
+            }
+        }
+""", "        let _ = other;\n", ["R5|MergeTop|keys-only-in-other"], "keys only in other are dropped")
+mut("C03", "absolute_value_dropped", DT, "(Some(val), None) | (None, Some(val)) => Some(val.clone()),", "(Some(val), None) => Some(val.clone()),\n            (None, Some(_)) => None,", ["R2|DataDomain|absolute_value"], "absolute value of other lost when self has none")
+mut("C03", "relative_values_self_only", DT, """        for (id, offset_other) in other.relative_values.iter() {
+            relative_values
+                .entry(id.clone())
+                .and_modify(|offset| *offset = offset.merge(offset_other))
+                .or_insert_with(|| offset_other.clone());
+        }
+""", "", ["R1|DataDomain|relative_values"], "pointer targets of other lost")
+mut("C03", "bitvector_merge_keeps_self", L + "abstract_domain/bitvector.rs", """        if self == other {
+            self.clone()
+        } else {
+            self.top()
+        }""", """        if self == other || other.is_top() {
+            self.clone()
+        } else {
+            self.top()
+        }""", ["R3|BitvectorDomain::merge"], "merge with Top keeps the concrete value")
+mut("C03", "intersect_keeps_missing", DM, """            let Some(value_other) = other.get(k) else {
+                return false;
+            };""", """            let Some(value_other) = other.get(k) else {
+                return true;
+            };""", ["R5|Intersect"], "intersect keeps keys missing in other")
+mut("C03", "mergetop_keeps_unmerged", DM, """            } else {
+                let top = value.top();
+
+                value.merge_with(&top);
+            };""", """            } else {
+                let _top = value.top();
+            };""", ["R5|MergeTop|keys-of-self"], "values missing in other kept unmerged")
+mut("C03", "taint_state_memory_not_merged", L + "analysis/taint/state.rs", "        self.memory_taint.merge_with(&other.memory_taint);\n", "", ["R4|taint::State::merge_with|memory_taint"], "memory taint of other lost")
+mut("C03", "union_skips_existing", DM, """            map.entry(key.clone())
+                .and_modify(|value| {
+                    value.merge_with(value_other);
+                })
+                .or_insert_with(|| value_other.clone());""", """            map.entry(key.clone())
+                .or_insert_with(|| value_other.clone());""", ["R5|Union"], "existing keys not merged in union strategy")
+mut("C03", "interval_hints_self_raw", L + "abstract_domain/interval.rs", "        merged_domain.update_widening_lower_bound(&self.widening_lower_bound);\n", "        merged_domain.widening_lower_bound = self.widening_lower_bound.clone();\n", ["R3|IntervalDomain::signed_merge|hint|lower|self"], "self's hint copied without validation")
+mut("C03", "taint_merge_top_wins", TM2, """            (Tainted(size), _) | (_, Tainted(size)) => Tainted(*size),
+            _ => Top(self.bytesize()),""", """            (Tainted(size), Tainted(_)) => Tainted(*size),
+            _ => Top(self.bytesize()),""", ["R3|Taint::merge|join-table"], "taint merge is a meet")
+
+# ---------------- C04
+CS = L + "abstract_domain/data/conditional_specialization.rs"
+mut("C04", "signed_le_uses_unsigned", CS, ".and_then(|value| value.add_signed_less_equal_bound(bound).ok());", ".and_then(|value| value.add_unsigned_less_equal_bound(bound).ok());", ["R1|add_signed_less_equal_bound|same-name"], "signed <= refined as unsigned <=")
+mut("C04", "unsigned_ge_uses_le", CS, ".and_then(|value| value.add_unsigned_greater_equal_bound(bound).ok());", ".and_then(|value| value.add_unsigned_less_equal_bound(bound).ok());", ["R1|add_unsigned_greater_equal_bound|same-name"], ">= refined as <=")
+mut("C04", "not_equal_uses_signed_le", CS, ".and_then(|value| value.add_not_equal_bound(bound).ok());", ".and_then(|value| value.add_signed_less_equal_bound(bound).ok());", ["R1|add_not_equal_bound|same-name"], "!= refined as <=")
+mut("C04", "signed_ge_clears_relative", CS, """            .and_then(|value| value.add_signed_greater_equal_bound(bound).ok());
+        if self.is_empty() {""", """            .and_then(|value| value.add_signed_greater_equal_bound(bound).ok());
+        self.relative_values.clear();
+        if self.is_empty() {""", ["R2|add_signed_greater_equal_bound"], "pointer targets dropped by a bound on the absolute part")
+mut("C04", "unsigned_le_clears_top", CS, """            .and_then(|value| value.add_unsigned_less_equal_bound(bound).ok());
+        if self.is_empty() {""", """            .and_then(|value| value.add_unsigned_less_equal_bound(bound).ok());
+        self.contains_top_values = false;
+        if self.is_empty() {""", ["R2|add_unsigned_less_equal_bound"], "Top flag dropped by a bound")
+mut("C04", "signed_le_abs_failure_fatal", CS, """        self.absolute_value = self
+            .absolute_value
+            .and_then(|value| value.add_signed_less_equal_bound(bound).ok());
+        if self.is_empty() {""", """        self.absolute_value = match self.absolute_value {
+            Some(value) => Some(value.add_signed_less_equal_bound(bound)?),
+            None => None,
+        };
+        if self.is_empty() {""", ["R3|add_signed_less_equal_bound"], "unsatisfiable absolute part makes the whole value unsatisfiable")
+mut("C04", "not_equal_err_when_abs_none", CS, """            .and_then(|value| value.add_not_equal_bound(bound).ok());
+        if self.is_empty() {""", """            .and_then(|value| value.add_not_equal_bound(bound).ok());
+        if self.absolute_value.is_none() {""", ["R3|add_not_equal_bound"], "Err when only the absolute part is unsatisfiable")
+mut("C04", "SILENT_precise_pretest", CS, """        self.absolute_value = self
+            .absolute_value
+            .and_then(|value| value.add_signed_greater_equal_bound(bound).ok());
+        if self.is_empty() {
+            Err(anyhow!("Empty value"))
+        } else {
+            Ok(self)
+        }""", """        if self.absolute_value.is_some() && self.relative_values.is_empty() && !self.contains_top_values {
+            let value = self.absolute_value.clone().unwrap();
+            if value.add_signed_greater_equal_bound(bound).is_err() {
+                return Err(anyhow!("Empty value"));
+            }
+        }
+        self.absolute_value = self
+            .absolute_value
+            .and_then(|value| value.add_signed_greater_equal_bound(bound).ok());
+        Ok(self)""", [], "equivalent: precise emptiness pre-test")
+mut("C04", "SILENT_match_form", CS, """        self.absolute_value = self
+            .absolute_value
+            .and_then(|value| value.add_not_equal_bound(bound).ok());
+        if self.is_empty() {
+            Err(anyhow!("Empty value"))
+        } else {
+            Ok(self)
+        }""", """        self.absolute_value = match self.absolute_value.take() {
+            Some(value) => value.add_not_equal_bound(bound).ok(),
+            None => None,
+        };
+        if !self.is_empty() {
+            Ok(self)
+        } else {
+            Err(anyhow!("Empty value"))
+        }""", [], "behaviour-preserving rewrite")
+mut("C04", "is_empty_ignores_top_flag", L + "abstract_domain/data.rs", """            && self.absolute_value.is_none()
+            && !self.contains_top_values
+    }""", """            && self.absolute_value.is_none()
+    }""", ["R3|is_empty|tests-every-value-field"], "a value consisting only of Top is reported unsatisfiable")
+
 for prop, name, spec in M:
     if name.startswith("SILENT_"):
         spec["silent"] = True
